@@ -11,7 +11,19 @@ import (
 // exactly representable float64 for the native replay.
 
 func c01Dur() time.Duration {
+	if vThorough() {
+		return c01DurWide()
+	}
 	sec := vNondetInt("sec", 0, 3600)
+	ns := vNondetInt("ns", 0, 999_999_999)
+	dur := time.Duration(sec*1_000_000_000 + ns)
+	vAssume(dur >= time.Millisecond)
+	return dur
+}
+
+// thorough tier: durations up to 24h
+func c01DurWide() time.Duration {
+	sec := vNondetInt("sec", 0, 86400)
 	ns := vNondetInt("ns", 0, 999_999_999)
 	dur := time.Duration(sec*1_000_000_000 + ns)
 	vAssume(dur >= time.Millisecond)
